@@ -180,7 +180,7 @@ def run(tier, seed, drv):
             nontriv += 1
         if r["bad"]:
             fb = r["first_bad"]
-            viol.append({"engine": "parser_method", "func": names[r["id"]].split(";")[0], "replay": f"prog|{r['id']}", "case": fb["case"], "expected": fb["std"], "observed": fb["konst"], "class": "mismatch", "bad_cases": r["bad"]})
+            viol.append({"engine": "parser_method", "func": names[r["id"]].split(";")[0], "replay": f"prog|{r['id']}", "case": (names[r["id"]] + ": " + fb["case"]) if r.get("crash") else fb["case"], "expected": fb["std"], "observed": fb["konst"], "class": "mismatch", "bad_cases": r["bad"]})
     rep["violations"] = viol
     rep["violations_total"] = len(viol)
     rep["overflow_classified"] = True
